@@ -22,7 +22,7 @@ Gen == [accts |-> Accts,
         bcn |-> [feeReg |-> 12, feeRec |-> 1, feePur |-> 5, denom |-> "nund", def |-> 2, max |-> 4, startId |-> 1],
         str |-> [feeNum |-> 1, feeDen |-> 100]]
 
-Init == st = StateOf(Gen) /\ phase = "idle" /\ hist = <<[a |-> "InitChain", g |-> Gen]>> /\ nTx = 0 /\ nFail = 0
+Init == st = StateOf(Gen) /\ phase = "idle" /\ hist = <<[a |-> "InitChain", g |-> Gen]>> /\ nTx = 0 /\ nFail = 0 /\ GoalRegsInit
 
 WReg(o) == [t |-> "WReg", owner |-> o, moniker |-> "m", name |-> "n", genesis |-> "g", type |-> "t"]
 BReg(o) == [t |-> "BReg", owner |-> o, moniker |-> "m", name |-> "n"]
@@ -81,6 +81,8 @@ Inv == C03State(st) /\ C04State(st) /\ C02StateModel(st) /\ NotHalted(st) /\ C08
 StepProps == [][ hist' # hist =>
                  LET ev == hist'[Len(hist')] IN
                  C03Step(st, st', ev) /\ C04Step(st, st', ev) /\ C02Step(st, st', ev) /\ C05Step(st, st', ev) /\ C09Step(st, st', ev) ]_vars
+\* coverage goals: print the behaviours that exercise the rare situations of Goals.tla (every explored transition)
+GoalEmit == [][ GoalStep(st, hist, st', hist') ]_vars
 Emit == phase = "done" => PrintT(<<"TRACE", ToJson(hist)>>)
 \* vacuity witnesses
 W_PartialUnlock == ~\E a \in AcctSet : st.ent.spent[a] > 0 /\ st.ent.locked[a] > 0
